@@ -32,6 +32,7 @@ type c10cfg struct {
 	ctx                string         // none expired 5ms 3s 10s
 	ignoreCtx, ctxLike bool
 	expiry             time.Duration // StoreConfig.ExpiryAge (declared secrets never expire, however old the cache's stamps)
+	customTicker       bool          // StoreConfig.PollTicker is set (to a ticker that never fires): start-up retries must not depend on it
 }
 
 func (c c10cfg) String() string {
@@ -42,6 +43,9 @@ func (c c10cfg) String() string {
 		}
 	}
 	ex := ""
+	if c.customTicker {
+		ex = " custom-poll-ticker"
+	}
 	if c.expiry > 0 {
 		ex = fmt.Sprintf(" expiry-age=%v", c.expiry)
 	}
@@ -168,6 +172,10 @@ func runC10(t *testing.T, c c10cfg) (out c10out) {
 		}
 		defer cancel()
 		cfg := setec.StoreConfig{Client: svc, Cache: cache, PollInterval: -1, ExpiryAge: c.expiry, Logf: func(string, ...any) {}}
+		if c.customTicker {
+			cfg.PollInterval = time.Hour
+			cfg.PollTicker = neverTicker{}
+		}
 		var vab sAB
 		var va sA
 		var vaba sABA
@@ -429,6 +437,25 @@ func checkC10(t *testing.T, env *report.Env, rep *report.Report) {
 	if env.Shard != 0 {
 		return
 	}
+	// the same with the caller's own poll ticker configured: the retry pauses of start-up are not polls
+	for _, l := range lists[:2] {
+		for _, sa := range []int{0, 1, 2, 3, 12} {
+			for _, cx := range []string{"none", "10s", "3s"} {
+				c := c10cfg{list: l.name, names: l.names, cache: "none", script: map[string]int{"a": sa}, ctx: cx, customTicker: true}
+				if len(l.names) > 1 {
+					c.script["b"] = 1
+				}
+				o := runC10(t, c)
+				sec.Evaluations++
+				sec.Nontrivial++
+				sec.Extra["custom_poll_ticker_configurations"]++
+				if kind, msg := c10Check(c, o); kind != "" {
+					rep.Violate(sec.Name, "construct/"+kind+": "+c.String(), c.String()+": "+msg, map[string]any{"config": c.String()})
+				}
+			}
+		}
+	}
+	sec.States, sec.Transitions = sec.Evaluations, sec.Evaluations
 	c10Prefixes(t, rep)
 	// FileClient and misconfiguration
 	fcSec := rep.Add(&report.Section{Name: "file-client-and-misconfiguration", Engine: "enum", Exhaustive: true, Extra: map[string]int64{},
@@ -568,3 +595,10 @@ func expiries(cache string) []time.Duration {
 	}
 	return []time.Duration{0}
 }
+
+// neverTicker is a caller-supplied poll ticker that never fires.
+type neverTicker struct{}
+
+func (neverTicker) Chan() <-chan time.Time { return nil }
+func (neverTicker) Stop()                  {}
+func (neverTicker) Done()                  {}
